@@ -207,7 +207,11 @@ def run_tlc(module, cfg=None, workers=None, simulate=None, depth=None,
     if not deadlock:
         cmd += ['-deadlock']
     if simulate:
-        cmd += ['-simulate', 'num=%d' % simulate, '-depth', str(depth or 20),
+        # -generate picks ONE random successor per step; -simulate enumerates
+        # (and evaluates invariants / action constraints, i.e. dumps) every
+        # candidate successor first: measured 20x slower, same behaviours
+        mode = os.environ.get('VERIF_TLC_RANDOM_MODE', '-generate')
+        cmd += [mode, 'num=%d' % simulate, '-depth', str(depth or 20),
                 '-workers', '1']
         if seed_ is not None:
             cmd += ['-seed', str(seed_)]
